@@ -37,7 +37,6 @@ package catalyst
 import (
 	"bytes"
 	"context"
-	"crypto/ecdsa"
 	"fmt"
 	"math/big"
 	"sort"
@@ -58,7 +57,6 @@ import (
 	"github.com/ethereum/go-ethereum/core/types"
 	"github.com/ethereum/go-ethereum/crypto"
 	"github.com/ethereum/go-ethereum/crypto/kzg4844"
-	"github.com/ethereum/go-ethereum/eth"
 	"github.com/ethereum/go-ethereum/eth/ethconfig"
 	"github.com/ethereum/go-ethereum/internal/verifx/worldgen"
 	"github.com/ethereum/go-ethereum/miner"
@@ -414,7 +412,6 @@ func (r *c36Run) one(rt *rapid.T, variants []worldgen.Variant) {
 			cls := c36ErrClass(errs[0])
 			if cls == "pool-reject:other" {
 				rt.Logf("pool rejects %s: %v", kind, errs[0])
-				fmt.Printf("C36-POOL-OTHER %s: %v\n", kind, errs[0])
 			}
 			c.Class(kind + ":" + cls)
 			return errs[0] == nil
@@ -781,6 +778,3 @@ func (r *c36Run) one(rt *rapid.T, variants []worldgen.Variant) {
 		return map[string]any{"fork": w.Variant.Name, "world": w.Describe(), "payloads": sample}
 	})
 }
-
-var _ = (*ecdsa.PrivateKey)(nil)
-var _ *eth.Ethereum
